@@ -9,6 +9,7 @@ after every transition (and the open-socket bound inside it).
 from __future__ import annotations
 
 import errno
+import os
 import itertools
 import io
 import socket
@@ -496,7 +497,9 @@ def plan(thorough):
     core = [c for c in cfgs if is_core(c)]
     pre = [c for c in cfgs if c["preload"] and c["release"] is None]
     if thorough:
-        passes = [("all d1 depth3", cfgs, 1, 3, 3000), ("core d2 depth2", core, 2, 2, 3000),
+        wide = core + [c for c in cfgs if c["kind"] == "http" and c["maxsize"] == 2 and c["retries"] in ("1", "R2") and
+                       (c["preload"], c["release"]) in ((True, None), (False, None))]
+        passes = [("all d1 depth2", cfgs, 1, 2, 3000), ("core + http maxsize2 d1 depth3", wide, 1, 3, 3000), ("core d2 depth2", core, 2, 2, 3000),
                   ("core d3 depth1", core, 3, 1, 3000), ("preloading d1 to fixpoint(depth<=8)", pre, 1, 8, 3000)]
     else:
         passes = [("all d1 depth2", cfgs, 1, 2, 2000), ("core d1 depth3", core, 1, 3, 2000),
@@ -616,6 +619,9 @@ def _dispatch(task):
 
 def run(ctx):
     passes = plan(ctx.thorough)
+    only = os.environ.get("VERIF_C01_PASS")  # development aid: time one pass (never set by the registered commands)
+    if only:
+        passes = [p for p in passes if only in p[0]]
     tasks = []
     for label, cfgs, dev, depth, cap in passes:
         for c in cfgs:
